@@ -44,7 +44,10 @@ type Finding struct {
 	Msg    string `json:"msg"`
 }
 
-type interval struct{ st, en int; kind byte }
+type interval struct {
+	st, en int
+	kind   byte
+}
 
 type view struct {
 	rs     *RuleSet
